@@ -43,7 +43,7 @@ def run(F, S, R, tier):
                 R.bad("prov/mmr-push-arg", "an MMR push does not take the block's digest", [c.where()])
         # commit only when no error was recorded
         cm = rec.calls_to(r"mmr::MMR::<.*>::commit$")
-        arms = [a for a in K.enum_arms(rec, "core::option::Option", [r"var:found_error"]) if "Some" in a[1]]
+        arms = [a for a in K.enum_arms(rec, "core::option::Option", [r"vty:core::option::Option<ckb_error::Error>$"]) if "Some" in a[1]]
         if cm and arms:
             a = arms[-1]
             if cm[0].bb in rec.reachable(a[1]["Some"]):
